@@ -45,6 +45,7 @@ DESCRIPTION = {
         "where a statement leaves an unqualified column with several candidate owners, the comparison is exact only if a provider is in use and exactly one candidate is known to define the column; otherwise only containment in the candidate set is required (the statement does not say more)",
         "scripts whose expected column graph has a cycle are skipped (no sources/sinks to enumerate paths from) and counted",
         "registered column lists are compared as sets",
+        "a write that does not define its target must not remove columns from what the session knows about it: judged on every script except at the sites of the open known finding (UPDATE ... FROM / MERGE under every parser, INSERT into a session-known table under the legacy parser), which are counted and judged through three pinned inputs",
         "deterministic in (script, metadata): the fault dimension is small - the hash seed, and in 30% of the runs an earlier analysis on the same provider object that was aborted by a bad statement after registering tables; provider stalls/failures and thread interleavings are decided under C12",
     ],
     "required_probes": {
